@@ -31,48 +31,114 @@ func TestMain(m *testing.M) { kit.Main(m, "C14") }
 // ---------------------------------------------------------------- in-process: the proposal payload round-trips
 
 type EncCase struct {
-	Args kit.Cmd `json:"args"`
+	Args kit.Cmd   `json:"args"`
+	More []kit.Cmd `json:"more,omitempty"` // further commands committed in the same batch
 }
 
-func execEnc(c EncCase) kit.Outcome {
-	args := c.Args.Bytes()
-	strs := make([]string, len(args))
-	for i, a := range args {
-		strs[i] = string(a)
+// effective argument vector the apply loop executes for a decoded proposal
+func effective(q *raftexample.RaftProposal) [][]byte {
+	if q.Args != nil {
+		return q.Args
 	}
-	p := &raftexample.RaftProposal{Data: strings.Join(strs, " "), Args: args, ID: "id-1"}
-	var q raftexample.RaftProposal
-	if err := json.Unmarshal(p.ToBytes(), &q); err != nil {
-		return kit.Outcome{Fail: fmt.Sprintf("the log entry of %s does not decode: %v", c.Args.String(), err)}
+	var out [][]byte
+	for _, s := range strings.Split(q.Data, " ") {
+		out = append(out, []byte(s))
+	}
+	return out
+}
+
+// execEnc: what a node proposes (RaftProposal.ToBytes, the payload handed to Raft) is decoded by the
+// code path every replica and every replay uses (publishEntries, reached through hook VerifPublish);
+// the argument vectors that come out must be the ones that went in, for every command of a batch.
+func execEnc(c EncCase) kit.Outcome {
+	cmds := append([]kit.Cmd{c.Args}, c.More...)
+	var payloads [][]byte
+	for i, cmd := range cmds {
+		args := cmd.Bytes()
+		strs := make([]string, len(args))
+		for j, a := range args {
+			strs[j] = string(a)
+		}
+		p := &raftexample.RaftProposal{Data: strings.Join(strs, " "), Args: args, ID: fmt.Sprintf("id-%d", i)}
+		payloads = append(payloads, p.ToBytes())
+	}
+	out, err := raftexample.VerifPublish(payloads)
+	if err != nil {
+		return kit.Outcome{Fail: fmt.Sprintf("the log entries of %s do not decode: %v", c.Args.String(), err)}
 	}
 	o := kit.Outcome{}
-	for _, a := range args {
-		if len(a) == 0 || bytes.ContainsAny(a, " \r\n\"\\") || !json.Valid(append(append([]byte{'"'}, bytes.ReplaceAll(a, []byte{'"'}, nil)...), '"')) {
-			o.NonTrivial = true
-		}
-	}
-	if len(q.Args) != len(args) {
-		o.Fail = fmt.Sprintf("%s: %d arguments went into the log entry, %d came out", c.Args.String(), len(args), len(q.Args))
+	if len(out) != len(cmds) {
+		o.Fail = fmt.Sprintf("%d commands went into the log, %d came out of it", len(cmds), len(out))
 		return o
 	}
-	for i := range args {
-		if !bytes.Equal(q.Args[i], args[i]) {
-			o.Fail = fmt.Sprintf("%s: argument %d changed in the log entry: %q -> %q", c.Args.String(), i, args[i], q.Args[i])
+	for i, cmd := range cmds {
+		args := cmd.Bytes()
+		for _, a := range args {
+			if len(a) == 0 || bytes.ContainsAny(a, " \r\n\"\\") || !json.Valid(append(append([]byte{'"'}, bytes.ReplaceAll(a, []byte{'"'}, nil)...), '"')) {
+				o.NonTrivial = true
+			}
+		}
+		if len(args) >= 256 {
+			o.NonTrivial = true
+			o.Labels = append(o.Labels, "256-or-more-arguments")
+		}
+		if out[i].ID != fmt.Sprintf("id-%d", i) {
+			o.Fail = fmt.Sprintf("command %d of the batch came out with id %q", i, out[i].ID)
 			return o
 		}
+		got := effective(out[i])
+		if len(got) != len(args) {
+			o.Fail = fmt.Sprintf("%.300s: %d arguments went into the log entry, %d came out", cmd.String(), len(args), len(got))
+			return o
+		}
+		for j := range args {
+			if !bytes.Equal(got[j], args[j]) {
+				o.Fail = fmt.Sprintf("%.300s: argument %d changed in the log entry: %q -> %q", cmd.String(), j, args[j], got[j])
+				return o
+			}
+		}
+	}
+	if len(cmds) > 1 {
+		o.Labels = append(o.Labels, "batch")
 	}
 	return o
+}
+
+func genEncCmd(t *rapid.T) kit.Cmd {
+	n := rapid.IntRange(1, 6).Draw(t, "n")
+	if rapid.IntRange(0, 11).Draw(t, "wide") == 0 {
+		// argument counts around the byte and short boundaries
+		n = rapid.SampledFrom([]int{127, 128, 129, 255, 256, 257, 300, 513, 1025}).Draw(t, "nwide")
+	}
+	args := make([]string, n)
+	for i := range args {
+		if n > 6 {
+			args[i] = fmt.Sprintf("a%d", i)
+			if i%50 == 7 {
+				args[i] = gen.Value(t, "arg")
+			}
+			continue
+		}
+		args[i] = gen.Value(t, "arg")
+	}
+	if rapid.IntRange(0, 9).Draw(t, "huge") == 0 {
+		unit := gen.Value(t, "unit")
+		if len(unit) > 3 {
+			unit = unit[:3]
+		}
+		args[len(args)-1] = strings.Repeat(unit+"x", rapid.SampledFrom([]int{255, 256, 65535, 65536, 70000}).Draw(t, "rep"))
+	}
+	return kit.MkCmd(args...)
 }
 
 func TestEncoding(t *testing.T) {
 	kit.Check(t, kit.Spec[EncCase]{Sub: "enc", Quick: 600, Thorough: 20000,
 		Gen: func(t *rapid.T) EncCase {
-			n := rapid.IntRange(1, 6).Draw(t, "n")
-			args := make([]string, n)
-			for i := range args {
-				args[i] = gen.Value(t, "arg")
+			c := EncCase{Args: genEncCmd(t)}
+			for i := rapid.IntRange(0, 3).Draw(t, "more"); i > 0; i-- {
+				c.More = append(c.More, genEncCmd(t))
 			}
-			return EncCase{Args: kit.MkCmd(args...)}
+			return c
 		},
 		Exec: execEnc})
 }
